@@ -164,6 +164,56 @@ impl World {
         }
     }
 
+    /// The whole logical content visible to a fresh read-only transaction, in canonical order:
+    /// [[path, "v", value id] | [path, "b", counter]].  ["panic"] / ["err", ..] if it cannot be read.
+    pub fn dump(&self) -> Value {
+        let db = match self.db() {
+            Some(d) => d,
+            None => return json!(["err", "Closed"]),
+        };
+        let r = catch_unwind(AssertUnwindSafe(|| -> Result<Value, Error> {
+            let tx = db.tx(false)?;
+            let mut out: Vec<Value> = Vec::new();
+            let mut names: Vec<Vec<u8>> = tx.buckets().map(|(n, _)| n.name().to_vec()).collect();
+            names.sort();
+            for n in names {
+                let b = tx.get_bucket(n.clone())?;
+                self.dump_bucket(&b, vec![self.prof.key_id(&n)], &mut out)?;
+            }
+            Ok(Value::Array(out))
+        }));
+        match r {
+            Ok(Ok(v)) => v,
+            Ok(Err(e)) => rerr(&e),
+            Err(_) => json!(["panic"]),
+        }
+    }
+
+    fn dump_bucket(&self, b: &Bucket, path: Vec<i64>, out: &mut Vec<Value>) -> Result<(), Error> {
+        out.push(json!([path, "b", b.next_int()]));
+        let mut subs: Vec<Vec<u8>> = Vec::new();
+        for d in b.cursor() {
+            match &d {
+                Data::KeyValue(kv) => {
+                    let mut p = path.clone();
+                    p.push(self.prof.key_id(kv.key()));
+                    out.push(json!([p, "v", self.prof.val_id(kv.value())]));
+                }
+                Data::Bucket(n) => subs.push(n.name().to_vec()),
+            }
+        }
+        for n in subs {
+            let nb = b.get_bucket(n.clone())?;
+            let mut p = path.clone();
+            p.push(self.prof.key_id(&n));
+            if p.len() > 8 {
+                continue;
+            }
+            self.dump_bucket(&nb, p, out)?;
+        }
+        Ok(())
+    }
+
     fn ent(&self, d: &Data) -> Value {
         match d {
             Data::Bucket(b) => json!([self.prof.key_id(b.name()), "b", 0]),
